@@ -76,7 +76,7 @@ def cases(shard, nshards, seed, tier):
     if mine():
         yield {"family": "cli-adapter", "module": "adapter", "argv": ["{in}", "--external", "{repo}/tests/184D-fr3d.txt", "--tool", "fr3d", "-a", "--csv", "o.csv"], "input": "tests/184D.cif"}
     # an external tool's pair list with same-rank conflicts (a residue with two canonical partners)
-    for inp in ["tests/488d.pdb", "tests/1ehz-assembly-1.cif", "tests/4qln.cif", "tests/1E7K_1_C.cif"] + (["tests/8btk_B7.cif", "tests/1DFU_1_M-N.cif", "tests/4WTI_1_T-P.cif"] if tier == "thorough" else []):
+    for inp in ["tests/488d.pdb", "tests/1ehz-assembly-1.cif", "tests/4qln.cif", "tests/1E7K_1_C.cif", "tests/6INQ.cif"] + (["tests/8btk_B7.cif", "tests/1DFU_1_M-N.cif", "tests/4WTI_1_T-P.cif"] if tier == "thorough" else []):
         for t in range(2 if tier == "quick" else 6):
             if mine():
                 yield {"family": "lib-external-conflicts", "module": "external_conflicts", "argv": ["{in}", f"{seed}:{inp}:{t}"], "input": inp}
@@ -87,6 +87,11 @@ def cases(shard, nshards, seed, tier):
     for t in range(2 if tier == "quick" else 6):
         if mine():
             yield {"family": "cli-annotator-ambiguous-base", "module": "annotator", "argv": ["--csv", "o.csv", "--json", "o.json", "{in}"], "ambiguous": t}
+    # a hairpin whose authors number it from 0 (labels from 1), with an external pair list in which nucleotides 0 and 1
+    # compete for one partner
+    for t in range(2 if tier == "quick" else 6):
+        if mine():
+            yield {"family": "lib-external-conflicts-numbered-from-zero", "module": "external_conflicts", "argv": ["{in}", f"{seed}:zero:{t}"], "zero_based": "tests/1A1T_1_B.cif"}
     # uridines presented as thymidines (DT): the thymine rows of the edge / donor / acceptor tables decide, with the
     # many non-canonical pairs of tRNA and riboswitch folds
     for src in ("tests/1ehz-assembly-1.cif", "tests/4qln.cif", "tests/1E7K_1_C.cif"):
@@ -306,7 +311,17 @@ def run_case(case, rec):
     seeds = [0, 1, 2] if os.environ.get("VERIF_TIER_EFFECTIVE", _cur.get("tier", "quick")) == "quick" else [0, 1, 2, 4242, "random", "random"]
     workdir = tempfile.mkdtemp(prefix="vmon-c14-")
     try:
-        if "u_as_dt" in case:
+        if "zero_based" in case:
+            from vmon import emit, gen3d
+
+            core.setup_path()
+            rows = emit.rows_from_structure(gen3d.load(case["zero_based"]))
+            low = min(r["resseq"] for r in rows)
+            for r in rows:
+                r["resseq"] -= low
+            inp = os.path.join(workdir, "numbered-from-zero.cif")
+            open(inp, "w").write(emit.emit_cif(rows, label_seq="index"))
+        elif "u_as_dt" in case:
             from vmon import emit, gen3d
 
             core.setup_path()
